@@ -167,6 +167,13 @@ func execCase(def *PropDef, cs *Case) (w *World) {
 			os.RemoveAll(os.TempDir() + "/" + e.Name())
 		}
 	}
+	if cs.Prop != "C13" && cs.Prop != "C14" {
+		// no collection inside a run: what sync.Pool hands out (pooled transactions and pages of
+		// the library) must not depend on when the collector happens to run; the worker collects
+		// between runs. (C13/C14 enumerate thousands of restores per run and keep the collector.)
+		old := debug.SetGCPercent(-1)
+		defer debug.SetGCPercent(old)
+	}
 	return def.Exec(cs)
 }
 
